@@ -7,7 +7,9 @@
    of RUNNING environments and of half-done teardowns are [OCrash PIdle] after [OStart] /
    [ODestroyStuck] / [ODestroy _ true]; [OReconnect] is a dropped and re-established master
    connection; [OAnswer] processes ONE reconciliation answer, so a history also fixes how the
-   answers interleave with everything else.  [boot true] is the world after the very first
+   answers interleave with everything else.  [OCreateHeld k s] is an environment creation stopped
+   in the launch window (tasks accepted and in the roster, first TASK_RUNNING not delivered),
+   [ORun t] the (first) TASK_RUNNING of a task, [OLost t] a TASK_LOST for a task the master keeps.  [boot true] is the world after the very first
    SUBSCRIBE with failover enabled; [no_tamper] = nobody but the core writes the stored id.
    The KILL rule (states, tasks of the roster skipped or not) is regenerated from
    core/task/manager.go on every run (gen/Gen_Reconcile.v). *)
@@ -101,16 +103,34 @@ Proof. exact answer_kills_unrostered. Qed.
 Print Assumptions C18_reconciliation_kills_only_unrostered.
 
 (* A mere reconnection, with all its reconciliation answers processed, costs the current life
-   nothing: roster and environments are what they were, every task of the roster is at the
-   master exactly as before (alive if it was), and whatever KILL it sent went to tasks outside
-   the roster (e.g. the leftovers of a teardown whose KILLs had stayed unanswered). *)
-Theorem C18_reconnect_changes_nothing : forall w,
+   nothing: the roster has the same tasks with the same locks and none has lost its ACTIVE mark
+   ([keeps]: the ones the master reports RUNNING are ACTIVE afterwards, the ordinary effect of a
+   status update), the environments are what they were, every task of the roster is at the
+   master exactly as before (alive if it was), and whatever KILL was sent went to tasks outside
+   the roster (e.g. the leftovers of a teardown whose KILLs had stayed unanswered).  [w] is any
+   world: in particular one in the LAUNCH WINDOW (OCreateHeld: tasks accepted and in the roster,
+   first TASK_RUNNING not delivered, so not ACTIVE) or with tasks written off after a TASK_LOST
+   that the master still has (OLost). *)
+Theorem C18_reconnect_loses_nothing : forall w,
   let r := hstep w OReconnect in
-  w_roster (fst r) = w_roster w /\ w_envs (fst r) = w_envs w /\
+  keeps (w_roster w) (w_roster (fst r)) /\ w_envs (fst r) = w_envs w /\
   (forall x, In x (w_master w) -> in_roster (mt_id x) (w_roster w) = true -> In x (w_master (fst r))) /\
   (forall t, In (CKill t) (snd r) -> in_roster t (w_roster w) = false).
 Proof. exact reconnect_untouched. Qed.
-Print Assumptions C18_reconnect_changes_nothing.
+Print Assumptions C18_reconnect_loses_nothing.
+
+(* What makes a roster task ACTIVE or INACTIVE (regenerated from updateTaskStatus): TASK_RUNNING
+   activates, TASK_LOST and TASK_FAILED deactivate, no state in which the master has a task
+   alive deactivates, and TASK_RUNNING is the only live state that activates.  So INACTIVE roster
+   tasks that are alive at the master exist (launch window, TASK_LOST) - the theorems above speak
+   of roster membership, never of that mark. *)
+Theorem C18_status_rule :
+  memN mesos_running status_activating = true /\
+  memN mesos_lost status_deactivating = true /\ memN mesos_failed status_deactivating = true /\
+  forallb (fun s => negb (memN s status_deactivating)) mesos_live_states = true /\
+  filter (fun s => memN s status_activating) mesos_live_states = [mesos_running].
+Proof. exact status_rule_shape. Qed.
+Print Assumptions C18_status_rule.
 
 (* --- the quiescent semantics the harness validates is one of the histories above ----------- *)
 Theorem C18_quiescent_is_a_history : forall w o,
@@ -122,8 +142,9 @@ Print Assumptions C18_quiescent_is_a_history.
    the connection is re-established and the answer about it (RUNNING, a state of the KILL rule) is
    the one being processed - it is spared, the task stays alive and owned, no KILL is sent; a
    task outside the roster (teardown whose KILLs stayed unanswered) is killed by the same
-   reconnection; and a restart with two live tasks satisfies the hypotheses of the restart
-   theorems. *)
+   reconnection; the launch window and the TASK_LOST case (roster tasks that are not ACTIVE while
+   the master has them alive); and a restart with two live tasks satisfies the hypotheses of the
+   restart theorems. *)
 Example C18_nonvacuous :
   let w := after (boot true) [OCreate 1; OReconnect] in
   no_tamper c18_witness = true /\
@@ -134,6 +155,22 @@ Example C18_nonvacuous :
    kills_of (snd r) = [] /\ map mt_alive (w_master (fst r)) = [true] /\ owned (fst r) 0 = true) /\
   (let r := hstep (after (boot true) [OCreate 2; ODestroyStuck 0; OCreate 1]) OReconnect in
    kills_of (snd r) = [0; 1] /\ map mt_alive (w_master (fst r)) = [false; false; true]) /\
+  (* launch window: two tasks in the roster, locked, not ACTIVE, alive at the master as STAGING; the
+     reconnection kills nothing and leaves them as they are; reported RUNNING they become ACTIVE *)
+  (let h := after (boot true) [OCreateHeld 2 mesos_staging] in
+   map (fun r => (rt_id r, rt_env r, rt_active r)) (w_roster h) = [(0, Some 0, false); (1, Some 0, false)] /\
+   owned h 0 = true /\ map mt_alive (w_master h) = [true; true] /\
+   w_pending (fst (step h OReconnect)) = [(0, mesos_staging); (1, mesos_staging)] /\
+   kills_of (snd (hstep h OReconnect)) = [] /\ w_roster (fst (hstep h OReconnect)) = w_roster h /\
+   map rt_active (w_roster (fst (hstep (after (boot true) [OCreateHeld 2 mesos_running]) OReconnect)))
+     = [true; true]) /\
+  (* a task lost by the master's account but still there: INACTIVE, owned, spared, and ACTIVE again *)
+  (let l := after (boot true) [OCreate 2; OLost 1] in
+   map rt_active (w_roster l) = [true; false] /\ owned l 1 = true /\
+   kills_of (snd (hstep l OReconnect)) = [] /\
+   map rt_active (w_roster (fst (hstep l OReconnect))) = [true; true]) /\
+  (* a restart in the launch window kills the held tasks *)
+  kills_of (snd (hstep (after (boot true) [OCreateHeld 2 mesos_starting]) (OCrash PIdle 0))) = [0; 1] /\
   (let v := after (boot true) [OCreate 2; OStart 0] in
    map mt_alive (w_master v) = [true; true] /\
    map mt_alive (w_master (fst (hstep v (OCrash PMidConfigure 1)))) = [false; false; false] /\
